@@ -324,11 +324,13 @@ fn parse_tuple_literal_or_parentheses(
             }
 
             let start_idx = tokens.idx;
-            exprs.push(parse_expression(tokens, id_gen, diagnostics));
-            assert!(
-                tokens.idx > start_idx,
-                "The parser should always make forward progress."
-            );
+            let expr = parse_expression(tokens, id_gen, diagnostics);
+            if tokens.idx == start_idx {
+                // No expression here, which parse_expression has
+                // already reported. Stop rather than looping forever.
+                break;
+            }
+            exprs.push(expr);
         }
 
         let close_paren = require_token(tokens, diagnostics, ")");
@@ -401,10 +403,11 @@ fn parse_dict_literal_items(
             value: Rc::new(value_expr),
         });
 
-        assert!(
-            tokens.idx > start_idx,
-            "The parser should always make forward progress."
-        );
+        if tokens.idx <= start_idx {
+            // No progress: the input is malformed and the errors have
+            // been reported. Stop rather than looping forever.
+            break;
+        }
 
         if let Some(token) = tokens.peek() {
             if token.text == "," {
@@ -993,10 +996,11 @@ fn parse_match(
             break;
         }
 
-        assert!(
-            tokens.idx > start_idx,
-            "The parser should always make forward progress."
-        );
+        if tokens.idx <= start_idx {
+            // No progress: the input is malformed and the errors have
+            // been reported. Stop rather than looping forever.
+            break;
+        }
 
         cases.push((pattern, case_block));
     }
@@ -1080,10 +1084,11 @@ fn parse_comma_separated_exprs(
             break;
         }
 
-        assert!(
-            tokens.idx > start_idx,
-            "The parser should always make forward progress."
-        );
+        if tokens.idx <= start_idx {
+            // No progress: the input is malformed and the errors have
+            // been reported. Stop rather than looping forever.
+            break;
+        }
 
         if let Some(token) = tokens.peek() {
             if token.text == "," {
@@ -1985,10 +1990,11 @@ fn parse_tuple_type_hint(
             tokens.pop();
         }
 
-        assert!(
-            tokens.idx > start_idx,
-            "The parser should always make forward progress."
-        );
+        if tokens.idx <= start_idx {
+            // No progress: the input is malformed and the errors have
+            // been reported. Stop rather than looping forever.
+            break;
+        }
     }
 
     let close_paren = require_token(tokens, diagnostics, ")");
@@ -2173,10 +2179,11 @@ fn parse_parameters(
             break;
         }
 
-        assert!(
-            tokens.idx > start_idx,
-            "The parser should always make forward progress."
-        );
+        if tokens.idx <= start_idx {
+            // No progress: the input is malformed and the errors have
+            // been reported. Stop rather than looping forever.
+            break;
+        }
     }
 
     let close_paren = require_token(tokens, diagnostics, ")");
@@ -2324,10 +2331,11 @@ fn parse_block(
             break;
         }
         exprs.push(Rc::new(expr));
-        assert!(
-            tokens.idx > start_idx,
-            "The parser should always make forward progress."
-        );
+        if tokens.idx <= start_idx {
+            // No progress: the input is malformed and the errors have
+            // been reported. Stop rather than looping forever.
+            break;
+        }
     }
 
     let close_brace = require_token(tokens, diagnostics, "}");
@@ -2802,10 +2810,11 @@ fn parse_let_destination(
                 require_token(tokens, diagnostics, ",");
             }
 
-            assert!(
-                tokens.idx > start_idx,
-                "The parser should always make forward progress."
-            );
+            if tokens.idx <= start_idx {
+                // We've reached the end of the file and already
+                // reported it.
+                break;
+            }
         }
 
         let mut seen: FxHashMap<&String, &Position> = FxHashMap::default();
@@ -2848,6 +2857,15 @@ fn parse_symbol(
     description: Option<&str>,
 ) -> Symbol {
     let prev_token = tokens.prev();
+    // At the end of the file `require_a_token` hands back the previous
+    // token without consuming anything, so the `unpop` calls below
+    // step backwards and that token is parsed again. Only allow that
+    // once, otherwise malformed input that ends early can make the
+    // parser loop or recurse forever.
+    let can_unpop = !(tokens.is_empty() && tokens.rewound_at_eof);
+    if tokens.is_empty() {
+        tokens.rewound_at_eof = true;
+    }
     let variable_token = require_a_token(tokens, diagnostics, "variable name");
 
     let prev_token_pos = match &prev_token {
@@ -2881,7 +2899,9 @@ fn parse_symbol(
                 notes: vec![],
             });
         }
-        tokens.unpop();
+        if can_unpop {
+            tokens.unpop();
+        }
         return placeholder_symbol(variable_token.position, id_gen);
     }
 
@@ -2921,7 +2941,9 @@ fn parse_symbol(
                     message: ErrorMessage(vec![msgtext!("Expected a symbol after this.")]),
                     notes: vec![],
                 });
-                tokens.unpop();
+                if can_unpop {
+                    tokens.unpop();
+                }
             }
             return keyword_placeholder(variable_token.position, id_gen);
         }
@@ -3057,10 +3079,11 @@ fn parse_toplevel_items_from_tokens(
                     break;
                 }
 
-                assert!(
-                    tokens.idx > start_idx,
-                    "The parser should always make forward progress",
-                );
+                if tokens.idx <= start_idx {
+                    // No progress: the input is malformed and the errors have
+                    // been reported. Stop rather than looping forever.
+                    break;
+                }
             }
             None => break,
         }
